@@ -529,8 +529,12 @@ def coq_term(case, obs, max_nodes=10):
     j = canonical_J(case, obs)
     if j is None:
         return None
-    return "J_eqb (result_J (simplify_spec %s %s %s)) %s" % (
-        coq_tables(obs["in"]), clist(case["samples"], cn), coq_opts(case["opts"]), j)
+    t, S, o = coq_tables(obs["in"]), clist(case["samples"], cn), coq_opts(case["opts"])
+    term = "J_eqb (result_J (simplify_spec %s %s %s)) %s" % (t, S, o, j)
+    # the specification is a fixed point of itself exactly when the C code is
+    if isinstance(obs.get("idem_diff"), list) and not any(d.startswith("error") for d in obs["idem_diff"]):
+        term += " && Bool.eqb (spec_idempotent_on %s %s %s) %s" % (t, S, o, cbool(not obs["idem_diff"]))
+    return term
 
 
 def random_opts(rng, p_flip=0.35):
